@@ -159,7 +159,11 @@ func c13Run(c *mon.Ctx) {
 			js := circ.JSON()
 			wantJS := fmt.Sprintf(`{"type":"Feature","geometry":{"type":"Point","coordinates":[%s,%s]},"properties":{"type":"Circle","radius":%s,"radius_units":"m"}}`, ff(lon), ff(lat), ff(m))
 			if js != wantJS {
-				c.Violation("json-form", "Circle JSON differs from the Feature/Point/properties form", mkc("JSON", js, wantJS))
+				// another spelling of the same form (member order, number format) is accepted; the structure is not negotiable
+				if why := circleFormDiff(js, lon, lat, m); why != "" {
+					c.Violation("json-form", "Circle JSON differs from the Feature/Point/properties form: "+why, mkc("JSON", js, wantJS))
+				}
+				c.Count("json_form_other_spelling")
 			}
 			back, err := geojson.Parse(js, nil)
 			if err != nil {
@@ -344,6 +348,45 @@ func c13Run(c *mon.Ctx) {
 			})
 		}
 	}
+}
+
+// circleFormDiff checks the structure {"type":"Feature","geometry":{"type":"Point","coordinates":[lon,lat]},
+// "properties":{"type":"Circle","radius":m,"radius_units":"m"}} with exact values, whatever the spelling.
+func circleFormDiff(js string, lon, lat, m float64) string {
+	var top map[string]json.RawMessage
+	if err := json.Unmarshal([]byte(js), &top); err != nil {
+		return "not a JSON object: " + err.Error()
+	}
+	var typ string
+	if json.Unmarshal(top["type"], &typ) != nil || typ != "Feature" || len(top) != 3 {
+		return "top level is not {type:Feature, geometry, properties}"
+	}
+	var g struct {
+		Type        string        `json:"type"`
+		Coordinates []json.Number `json:"coordinates"`
+	}
+	var gm map[string]json.RawMessage
+	if json.Unmarshal(top["geometry"], &g) != nil || json.Unmarshal(top["geometry"], &gm) != nil || g.Type != "Point" || len(g.Coordinates) != 2 || len(gm) != 2 {
+		return "geometry is not a two-ordinate Point"
+	}
+	x, e1 := g.Coordinates[0].Float64()
+	y, e2 := g.Coordinates[1].Float64()
+	if e1 != nil || e2 != nil || x != lon || y != lat {
+		return fmt.Sprintf("centre %v,%v is not %v,%v", g.Coordinates[0], g.Coordinates[1], lon, lat)
+	}
+	var pr map[string]json.RawMessage
+	if json.Unmarshal(top["properties"], &pr) != nil || len(pr) != 3 {
+		return "properties is not {type, radius, radius_units}"
+	}
+	var pt, pu string
+	var rad json.Number
+	if json.Unmarshal(pr["type"], &pt) != nil || pt != "Circle" || json.Unmarshal(pr["radius_units"], &pu) != nil || pu != "m" || json.Unmarshal(pr["radius"], &rad) != nil {
+		return "properties do not say type Circle, radius, radius_units m"
+	}
+	if v, err := rad.Float64(); err != nil || v != m {
+		return fmt.Sprintf("radius %v is not %v", rad, m)
+	}
+	return ""
 }
 
 func ff(f float64) string {
